@@ -31,6 +31,7 @@ EndFails == IF "free" \in DOMAIN exp THEN <<>>
 Fails(e) == CASE e.ev = "reset" -> <<>>
               [] e.ev = "hook" -> HookFails(e)
               [] e.ev = "end" -> EndFails
+              [] e.ev = "crash" -> <<"C10.lock">>        \* the Go runtime aborted the process: unsynchronised map access / lock misuse
               [] OTHER -> <<"unknown-event">>
 Init == l = 1 /\ nfail = 0 /\ reg = <<>> /\ readers = {} /\ writer = "none" /\ seen = <<>> /\ results = <<>> /\ exp = <<>>
 Next == /\ l <= Len(Tr)
